@@ -3,6 +3,7 @@ package rules
 import (
 	"go/token"
 	"go/types"
+	"os"
 	"strings"
 
 	"golang.org/x/tools/go/ssa"
@@ -275,6 +276,11 @@ func runC16(c *eng.Ctx) {
 	c.Rule("R16.8", "K6")
 	ruleStreamConfigPlumbing(c, "OptimisticConcurrencyControl")
 	c.Floor(3)
+	if os.Getenv("LBCHECK_COPIES_ALL") != "" {
+		for _, l := range DebugCopies(c.P) {
+			c.Note("copy: %s", l)
+		}
+	}
 
 	// ---- R16.9 the server's own publishes waive the expected-offset check
 	c.Rule("R16.9", "K6")
@@ -301,11 +307,46 @@ func runC16(c *eng.Ctx) {
 		}
 		c.Check(ok, "NONE policy refused on controlled streams", p.Pos(fn.Pos()), "error on IsConcurrencyControlEnabled() ∧ AckPolicy == NONE", "a publish without acknowledgement is accepted on a stream with concurrency control: the publisher cannot learn that it lost")
 	}
-	for _, k := range []string{"server.(*apiServer).Publish", "server.(*publishAsyncSession).publishLoop"} {
-		fn := c.Fn(k)
-		if fn == nil {
+	// the functions that send a PublishRequest's message: the async loop, and whichever function hands a request's message
+	// to the low-level apiServer.publish (Publish itself, or the helper it shares with the server's own publishes)
+	senders := []*ssa.Function{}
+	if fn := c.Fn("server.(*publishAsyncSession).publishLoop"); fn != nil {
+		senders = append(senders, fn)
+	}
+	isReqParam := func(prm *ssa.Parameter) bool {
+		pt, ok := prm.Type().(*types.Pointer)
+		if !ok {
+			return false
+		}
+		nt, ok := pt.Elem().(*types.Named)
+		return ok && nt.Obj().Name() == "PublishRequest"
+	}
+	for _, fn := range p.Funcs {
+		if fn.Parent() != nil || len(eng.CallsIn(fn, "server.apiServer.publish")) == 0 {
 			continue
 		}
+		for _, prm := range fn.Params {
+			if isReqParam(prm) {
+				senders = append(senders, fn)
+				break
+			}
+		}
+	}
+	if h := c.Fn("server.(*apiServer).Publish"); h != nil {
+		reaches := false
+		for _, s := range senders {
+			if s == h {
+				reaches = true
+			}
+			for _, ci := range eng.CallsIn(h, funcRefOf(s)) {
+				if _, isCall := ci.(*ssa.Call); isCall {
+					reaches = true
+				}
+			}
+		}
+		c.Check(reaches, "Publish sends through a checked sender", p.Pos(h.Pos()), "Publish is, or synchronously calls, a function that checks the publish preconditions before sending", "the Publish handler does not send through a function that checks the publish preconditions")
+	}
+	for _, fn := range senders {
 		pre := eng.CallsIn(fn, "server.apiServer.ensurePublishPreconditions")
 		if len(pre) != 1 {
 			c.Violate("preconditions checked in "+fn.Name(), p.Pos(fn.Pos()), fn.Name()+" does not call ensurePublishPreconditions exactly once")
@@ -320,7 +361,7 @@ func runC16(c *eng.Ctx) {
 			c.Check(w == nil && g && len(okEdge) > 0, "publish in "+fn.Name()+" only after the preconditions passed", c.Pos(pub.(ssa.Instruction)), "reached only over ensurePublishPreconditions(req) == nil", "a message is published although the publish preconditions failed or were not checked (path "+w.String()+")")
 		}
 	}
-	c.Floor(3)
+	c.Floor(4)
 }
 
 // ruleInternalPublishesWaive (R16.9, shared with C11 and C18): a PublishRequest that the server builds itself (cursors,
@@ -364,4 +405,9 @@ func ruleInternalPublishesWaive(c *eng.Ctx) {
 	if n == 0 {
 		c.Unresolved("PublishRequest literals built by the server")
 	}
+}
+
+func funcRefOf(fn *ssa.Function) string {
+	obj, _ := fn.Object().(*types.Func)
+	return eng.FuncRef(obj)
 }
